@@ -111,6 +111,9 @@ func (vc *VC) compile(env *Env, n *SNode) *Val {
 	case "id":
 		return vc.resolve(env, n.Tok)
 	case "un":
+		if n.Tok == "&" {
+			return vc.compileAddr(env, n.Args[0])
+		}
 		if n.Tok == "*" {
 			p := vc.compile(env, n.Args[0])
 			if p.K != KPtr || p.T == nil {
@@ -190,6 +193,55 @@ func (vc *VC) compile(env *Env, n *SNode) *Val {
 		return vc.boolVal(fmt.Sprintf("(%s (%s) %s)", n.Op, strings.Join(binders, " "), body))
 	}
 	sfail("cannot compile %s", n)
+	return nil
+}
+
+// compileAddr: address of an lvalue expression x[i], p.f, *p (chains allowed); yields a typed pointer.
+func (vc *VC) compileAddr(env *Env, n *SNode) *Val {
+	switch n.Op {
+	case "index":
+		x := vc.compile(env, n.Args[0])
+		ix := vc.specIdx(vc.compile(env, n.Args[1]))
+		switch x.K {
+		case KSlice:
+			et := x.T.Underlying().(*types.Slice).Elem()
+			return &Val{K: KPtr, T: types.NewPointer(et), C: []string{x.C[0], bvBin("bvadd", x.C[1], mulOff(ix, layoutOf(et).N))}}
+		case KPtr:
+			if pt, ok := x.T.Underlying().(*types.Pointer); ok {
+				if at, ok := pt.Elem().Underlying().(*types.Array); ok {
+					return &Val{K: KPtr, T: types.NewPointer(at.Elem()), C: []string{x.C[0], bvBin("bvadd", x.C[1], mulOff(ix, layoutOf(at.Elem()).N))}}
+				}
+			}
+		case KAgg:
+			if at, ok := x.T.Underlying().(*types.Array); ok {
+				return &Val{K: KPtr, T: types.NewPointer(at.Elem()), C: []string{x.C[0], bvBin("bvadd", x.C[1], mulOff(ix, layoutOf(at.Elem()).N))}}
+			}
+		}
+	case "sel":
+		x := vc.compile(env, n.Args[0])
+		if x.K == KPtr {
+			x = &Val{K: KAgg, T: x.T.Underlying().(*types.Pointer).Elem(), C: x.C, H: env.heap}
+		}
+		if x.K == KAgg {
+			if st, ok := x.T.Underlying().(*types.Struct); ok {
+				for i := 0; i < st.NumFields(); i++ {
+					if st.Field(i).Name() == n.Tok {
+						return &Val{K: KPtr, T: types.NewPointer(st.Field(i).Type()), C: []string{x.C[0], bvBin("bvadd", x.C[1], off64(layoutOf(x.T).Fields[i]))}}
+					}
+				}
+			}
+		}
+	case "un":
+		if n.Tok == "*" {
+			return vc.compile(env, n.Args[0])
+		}
+	case "id":
+		v := vc.resolve(env, n.Tok)
+		if v.K == KAgg {
+			return &Val{K: KPtr, T: types.NewPointer(v.T), C: []string{v.C[0], v.C[1]}}
+		}
+	}
+	sfail("cannot take the address of %s", n)
 	return nil
 }
 
@@ -693,6 +745,17 @@ func (vc *VC) compileCall(env *Env, n *SNode) *Val {
 		need(2)
 		a, b := vc.compile(env, args[0]), vc.compile(env, args[1])
 		return vc.boolVal(sNot(sEq(vc.refOf(a), vc.refOf(b))))
+	case "within":
+		// within(p, q): the cells p denotes lie inside the cells q denotes
+		need(2)
+		a, b := vc.compile(env, args[0]), vc.compile(env, args[1])
+		ar, ao, an := vc.regionOf(a)
+		br, bo, bn := vc.regionOf(b)
+		if an == "" || bn == "" {
+			return vc.boolVal(sEq(ar, br))
+		}
+		rel := bvBin("bvsub", ao, bo)
+		return vc.boolVal(sAnd(sEq(ar, br), bvCmp("bvule", rel, bn), bvCmp("bvule", bvBin("bvadd", rel, an), bn)))
 	case "sameobj":
 		need(1)
 		a := vc.compile(env, args[0])
